@@ -225,5 +225,14 @@ theorem ni_stepOp {b : Bag} (h : NI b) (hr : Rect b) (op : Op) (hne : ¬ NameEdi
         rcases replaceChar_cases hrr with e | ⟨i, e⟩ <;> rw [e]
         · exact h
         · exact h.keys (by simp only []; rw [keys_setInRow]) rfl rfl
+  | rmGapSites num den ends =>
+    simp only [Model.stepOp]
+    split
+    · exact h
+    · split
+      · exact h
+      · rename_i r hrr
+        obtain ⟨k, i, n, _⟩ := removeGapSites_fields hrr
+        exact h.keys k i n
 
 end Gv.Proofs.BagAbs
